@@ -203,12 +203,15 @@ CHECKS = {
         ],
     },
     "C10": {
-        "engines": lambda tier: [{"engine": "e2", "shards": 16, "args": {"schedules": 3000 if tier == "thorough" else 150, "free": 150 if tier == "thorough" else 10}}],
+        "bins": True,
+        "engines": lambda tier: [{"engine": "e2", "shards": 16, "args": {"schedules": 3000 if tier == "thorough" else 150, "free": 150 if tier == "thorough" else 10, "real": 40 if tier == "thorough" else 3}}],
         "level": "exploration",
         "rule": "case = one execution of a scenario: a tower prepared by a model-checked sequential setup, then 2-3 real OS threads (chain thread delivering one "
                 "poll = 1 block, or a disconnection + 2 blocks; one or two API threads with register / add (new, same twice, update, late) / get_appointment / "
                 "get_subscription_info) under the serialising PCT scheduler (every hooked lock acquisition/release/condvar wait is a scheduling point; 0-3 "
-                "priority change points) or free-running with seeded delays. Oracle: (replies with all fields, final users/appointments/trackers rows, multiset "
+                "priority change points) or free-running with seeded delays; and, unscheduled, against the real teosd binary (prepared database put in place, teosd "
+                "bootstrapped by its own main.rs, API threads as real HTTP/gRPC clients and the poll granted by the fake bitcoind after seeded 0-4 ms delays; the "
+                "counters real_teosd_matched_reference[scenario#k] show which sequential orders the real runs looked like). Oracle: (replies with all fields, final users/appointments/trackers rows, multiset "
                 "of broadcasts) must equal the outcome of SOME sequential interleaving of the same operations (block events atomic), the sequential outcomes "
                 "being produced by scripted schedules on identical towers. non-trivial = execution with >= 1 context switch between threads; distinct = "
                 "distinct (scenario, schedule decision string).",
@@ -220,7 +223,7 @@ CHECKS = {
     },
     "C11": {
         "bins": True,
-        "engines": lambda tier: [{"engine": "e2", "shards": 16, "args": {"schedules": 3000 if tier == "thorough" else 150, "free": 150 if tier == "thorough" else 10}},
+        "engines": lambda tier: [{"engine": "e2", "shards": 16, "args": {"schedules": 3000 if tier == "thorough" else 150, "free": 150 if tier == "thorough" else 10, "real": 40 if tier == "thorough" else 3}},
                                  {"engine": "e1", "shards": 16, "args": {"bias": "mixed", "cases": 1500 if tier == "thorough" else 80}},
                                  {"engine": "e1", "shards": 16, "args": {"bias": "chain", "cases": 800 if tier == "thorough" else 40}},
                                  {"engine": "e3", "shards": 4, "timeout_s": 3000, "args": {"bias": "mixed", "cases": 300 if tier == "thorough" else 12, "parallel": 4}}],
